@@ -2,7 +2,9 @@
 # verify_seed.sh <ID> [test paths...]: confirm a seeded change in /tmp/seed-<ID> (demo fails with it, passes without it,
 # tests pass with it), then store it under /verif/seeded/<ID>/.
 ID=$1; shift
-WT=/tmp/seed-$ID
+TAG=${SEED_TAG:-}          # worktree /tmp/seed$TAG-$ID
+NAME=${SEED_NAME:-$ID}     # stored as /verif/seeded/$NAME
+WT=/tmp/seed$TAG-$ID
 cd $WT || exit 2
 git diff --quiet && git apply seed/patch.diff
 git diff -- openpectus > /tmp/seed-$ID.current.diff
@@ -15,8 +17,8 @@ if [ $# -gt 0 ]; then
   echo "== tests WITH change"; timeout 1200 /venv/bin/python -m pytest -q -p no:cacheprovider -n 8 "$@" 2>&1 | grep -E "^FAILED|passed|failed" | grep -v "test_validate_demo_uod" | tail -6
 fi
 if [ $W -ne 0 ] && [ $WO -eq 0 ]; then
-  mkdir -p /verif/seeded/$ID; cp /tmp/seed-$ID.current.diff /verif/seeded/$ID/patch.diff; cp seed/demo.py seed/meta.json /verif/seeded/$ID/
-  echo "STORED /verif/seeded/$ID"
+  mkdir -p /verif/seeded/$NAME; cp /tmp/seed-$ID.current.diff /verif/seeded/$NAME/patch.diff; cp seed/demo.py seed/meta.json /verif/seeded/$NAME/
+  echo "STORED /verif/seeded/$NAME"
 else
   echo "NOT CONFIRMED"
 fi
